@@ -28,7 +28,7 @@ MANIFEST = {
             'order, __len__ never called on an unbounded supplier, the '
             'render of an unbounded supplier returns; unbatched renders pull '
             'every element exactly once.',
-    'more': 'Also: one of the five parameters (rotating over the grid) given as a text int() understands instead of an integer.',
+    'more': 'Also: one of the five parameters (rotating over the grid) given as a text int() understands instead of an integer. The look-ahead parameters the tag reports (step size, orphan) must be the ones it was asked for (or the size inferred from start..end).',
     'note': 'Trusted: the pull log of the instrumented supplier; the window '
             'end / step size / orphan used in the bound are the ones the tag '
             'itself reports (sequence-step-end / -size / -orphan).  An '
